@@ -121,6 +121,18 @@ def check_variant(ctx, k, kind, bound):
             if reads:
                 ctx.require(q, z3.And(*[z3.And(z3.UGE(a, base), z3.ULE(zext(a - base, 128) + 4, BV(SIZE, 128))) for a in reads]),
                             "each element read by a range copy lies wholly inside the sandbox even if the sandbox rewrites the pointer slot between rlbox's fetches")
+        if kind == "range" and k != "k_cavr_vol" and not (isinstance(obj, int) and obj == 0):
+            # element i of the verifier's copy is exactly what was fetched from element i of the source
+            esz = 1 if k == "k_cavr_char" else 4
+            a0 = symex.simp(obj).as_long() if not isinstance(obj, int) else obj
+            adv = q.user.get("adv") or []
+            conds = []
+            for i in range(bound):
+                el = z3.Concat(*[ctx.eng.cbyte(q, a0 + i * esz + j) for j in reversed(range(esz))]) if esz > 1 else ctx.eng.cbyte(q, a0 + i)
+                src = p + BV(i * esz, 64)
+                conds.append(z3.Implies(z3.UGT(n, BV(i, 64)), z3.Or(*[z3.And(a == src, val == el) for (a, n_, val) in adv if n_ == esz])))
+            ctx.require(q, z3.And(*conds), "every element of the verifier's copy is the value fetched from the same element of the sandbox range "
+                                           "(binary content, including bytes after an embedded zero)")
         # content handed to the verifier must come from sandbox reads, never from uninitialised application bytes
         for ent in lg:
             for x in ent[1:]:
@@ -194,7 +206,7 @@ def check_narrow(ctx, k, abits):
 
 VARIANTS = [("k_cav_vol_int", "val"), ("k_cav_vol_long", "val"), ("k_cav_ptr_int", "ptr"), ("k_cav_volptr_long", "ptr"), ("k_cav_struct", "struct"),
             ("k_cav_arr", "arr"), ("k_cavr", "range"), ("k_cavs_unique", "string_u"), ("k_cavs_string", "string_s"), ("k_deny_copy", "deny"),
-            ("k_cavs_vol_unique", "string_u"), ("k_cavs_vol_string", "string_s"), ("k_cav_arr2d", "arr"), ("k_cavba_vol", "bufaddr"), ("k_cavr_vol", "range")]
+            ("k_cavs_vol_unique", "string_u"), ("k_cavs_vol_string", "string_s"), ("k_cav_arr2d", "arr"), ("k_cavba_vol", "bufaddr"), ("k_cavr_vol", "range"), ("k_cavr_char", "range")]
 
 
 def check_seq(ctx, k, kind):
